@@ -213,12 +213,18 @@ def seal_kernels(chk, it):
     c05.reward_kernel(chk, it)
     BM.CONFIG['symbolic_ops'] = True
     it.arith_feasibility = True
+    # any pool a request can name: user-created pools can be drained completely or start from a one-sided deposit, so reserves
+    # and liquidity range over [0, 2^127] here (the built-in pools keep theirs >= 1: C16)
+    c15.WEAK_POOLS[0] = True
     try:
         for n in (1, 2):
-            c15.swap_settlement(chk, it, n, mode='panic')
-            c15.withdraw_settlement(chk, it, n, mode='panic')
-        c15.deposit_settlement(chk, it, 1, mode='panic')
-        pegging_kernel(chk, it)
+            chk.guard(c15.swap_settlement, chk, it, n, mode='panic')
+            chk.guard(c15.withdraw_settlement, chk, it, n, mode='panic')
+        chk.guard(c15.deposit_settlement, chk, it, 1, mode='panic')
+    finally:
+        c15.WEAK_POOLS[0] = False
+    try:
+        chk.guard(pegging_kernel, chk, it)
     finally:
         BM.CONFIG['symbolic_ops'] = False
         it.arith_feasibility = False
